@@ -6,6 +6,25 @@
 #include <stdlib.h>
 #include <string.h>
 #include <stdio.h>
+#ifdef NANOLANG_VERIF
+/* Verification hook H3 (loader stage events).  Inert unless the environment
+ * variable NANOLANG_VERIF_TRACE names a file: then one ndjson line per loader
+ * stage is appended to it (opened and closed per event, so that the lines
+ * survive a crash of the loader). */
+#include <stdarg.h>
+static void nlv_loader_ev(const char *fmt, ...) {
+    const char *nlv_path = getenv("NANOLANG_VERIF_TRACE");
+    if (!nlv_path || !nlv_path[0]) return;
+    FILE *nlv_f = fopen(nlv_path, "a");
+    if (!nlv_f) return;
+    va_list ap;
+    va_start(ap, fmt);
+    vfprintf(nlv_f, fmt, ap);
+    va_end(ap);
+    fputc('\n', nlv_f);
+    fclose(nlv_f);
+}
+#endif
 
 /* ========================================================================
  * CRC32 (standard polynomial 0xEDB88320)
@@ -479,6 +498,10 @@ uint8_t *nvm_serialize(const NvmModule *mod, uint32_t *out_size) {
  * ======================================================================== */
 
 NvmModule *nvm_deserialize(const uint8_t *data, uint32_t size) {
+#ifdef NANOLANG_VERIF
+    nlv_loader_ev("{\"e\":\"load\",\"size\":%u}", size);
+    if (size < NVM_HEADER_SIZE) nlv_loader_ev("{\"e\":\"reject\",\"stage\":\"short\"}");
+#endif
     if (size < NVM_HEADER_SIZE) return NULL;
 
     /* Parse header */
@@ -495,15 +518,34 @@ NvmModule *nvm_deserialize(const uint8_t *data, uint32_t size) {
     header.string_pool_length = le_read_u32(data + 24);
     header.checksum          = le_read_u32(data + 28);
 
+#ifdef NANOLANG_VERIF
+    if (!nvm_validate_header(&header)) nlv_loader_ev("{\"e\":\"reject\",\"stage\":\"header\"}");
+#endif
     if (!nvm_validate_header(&header)) return NULL;
+#ifdef NANOLANG_VERIF
+    nlv_loader_ev("{\"e\":\"hdr_ok\",\"nsec\":%u}", header.section_count);
+#endif
 
     /* Verify CRC32 */
     uint32_t expected_crc = nvm_crc32(data + NVM_HEADER_SIZE, size - NVM_HEADER_SIZE);
+#ifdef NANOLANG_VERIF
+    if (expected_crc != header.checksum)
+        nlv_loader_ev("{\"e\":\"reject\",\"stage\":\"crc\",\"crc\":[%u,%u]}", expected_crc >> 16, expected_crc & 0xFFFF);
+#endif
     if (expected_crc != header.checksum) return NULL;
+#ifdef NANOLANG_VERIF
+    nlv_loader_ev("{\"e\":\"crc_ok\",\"crc\":[%u,%u]}", expected_crc >> 16, expected_crc & 0xFFFF);
+#endif
 
     /* Check section directory fits */
     uint32_t dir_end = NVM_HEADER_SIZE + header.section_count * NVM_SECTION_ENTRY_SIZE;
+#ifdef NANOLANG_VERIF
+    if (dir_end > size) nlv_loader_ev("{\"e\":\"reject\",\"stage\":\"dir\"}");
+#endif
     if (dir_end > size) return NULL;
+#ifdef NANOLANG_VERIF
+    nlv_loader_ev("{\"e\":\"dir_ok\",\"dir_end\":%u}", dir_end);
+#endif
 
     NvmModule *mod = nvm_module_new();
     if (!mod) return NULL;
@@ -520,12 +562,19 @@ NvmModule *nvm_deserialize(const uint8_t *data, uint32_t size) {
 
         if (sec_offset > size || sec_size > size - sec_offset) {
             nvm_module_free(mod);
+#ifdef NANOLANG_VERIF
+            nlv_loader_ev("{\"e\":\"reject\",\"stage\":\"section\",\"i\":%u}", i);
+#endif
             return NULL;
         }
 
         mod->sections[i].type   = sec_type;
         mod->sections[i].offset = sec_offset;
         mod->sections[i].size   = sec_size;
+#ifdef NANOLANG_VERIF
+        nlv_loader_ev("{\"e\":\"section\",\"i\":%u,\"type\":%u,\"off\":[%u,%u],\"size\":[%u,%u]}", i, sec_type,
+                      sec_offset >> 16, sec_offset & 0xFFFF, sec_size >> 16, sec_size & 0xFFFF);
+#endif
 
         const uint8_t *sec_data = data + sec_offset;
 
@@ -614,5 +663,9 @@ NvmModule *nvm_deserialize(const uint8_t *data, uint32_t size) {
         }
     }
 
+#ifdef NANOLANG_VERIF
+    nlv_loader_ev("{\"e\":\"done\",\"strings\":%u,\"functions\":%u,\"code\":%u}",
+                  mod->string_count, mod->function_count, mod->code_size);
+#endif
     return mod;
 }
